@@ -22,7 +22,7 @@ variable (H : Heap) {custom : Option Less} {linkFn : LinkFn} {inputs : List Inpu
   {out : List (Nat × Rec)} {fin : Option Term}
 
 /-! ### the merged stream ends: size + 1 calls of Read reach the final error -/
-theorem merge_terminates (hm : newMerger custom linkFn inputs = .ok m) :
+theorem merge_terminates (hm : newMerger custom (some linkFn) inputs = .ok m) :
     ∃ out t, m.readAll H = (out, some t) := by
   cases hl : lessOf custom inputs with
   | none => exact ⟨_, _, readAll_cat H hm hl⟩
@@ -35,7 +35,7 @@ theorem merge_terminates (hm : newMerger custom linkFn inputs = .ok m) :
 
 /-- when merging by a sort order (whatever the inputs do), or when concatenating inputs that all end
 cleanly: the output is a permutation of the records the inputs deliver -/
-theorem merge_perm (hm : newMerger custom linkFn inputs = .ok m) (hr : m.readAll H = (out, fin))
+theorem merge_perm (hm : newMerger custom (some linkFn) inputs = .ok m) (hr : m.readAll H = (out, fin))
     (h : (lessOf custom inputs).isSome ∨ ∀ inp, inp ∈ inputs → inp.src.term = .eof) :
     out.Perm (deliveredBy linkFn inputs) := by
   cases hl : lessOf custom inputs with
@@ -59,7 +59,7 @@ theorem merge_perm (hm : newMerger custom linkFn inputs = .ok m) (hr : m.readAll
     exact List.Perm.refl _
 
 /-- in every mode, also with failing inputs: nothing is returned that no input delivered -/
-theorem merge_nothing_else (hm : newMerger custom linkFn inputs = .ok m) (hr : m.readAll H = (out, fin)) :
+theorem merge_nothing_else (hm : newMerger custom (some linkFn) inputs = .ok m) (hr : m.readAll H = (out, fin)) :
     ∀ p, p ∈ out → p ∈ deliveredBy linkFn inputs := by
   cases hl : lessOf custom inputs with
   | some less =>
@@ -76,7 +76,7 @@ theorem merge_nothing_else (hm : newMerger custom linkFn inputs = .ok m) (hr : m
 /-! ### concatenation mode (sort order unsorted, or unknown with a nil less) -/
 
 /-- the output is the inputs one after the other -/
-theorem merge_concatenates (hm : newMerger custom linkFn inputs = .ok m) (hr : m.readAll H = (out, fin))
+theorem merge_concatenates (hm : newMerger custom (some linkFn) inputs = .ok m) (hr : m.readAll H = (out, fin))
     (hl : lessOf custom inputs = none) (hc : ∀ inp, inp ∈ inputs → inp.src.term = .eof) :
     out = deliveredBy linkFn inputs ∧ fin = some .eof := by
   have hc' : ∀ p, p ∈ srcsOf inputs → p.2.term = .eof := by
@@ -89,7 +89,7 @@ theorem merge_concatenates (hm : newMerger custom linkFn inputs = .ok m) (hr : m
   exact ⟨this.1, this.2⟩
 
 /-- with a failing input the output is an initial part of that concatenation -/
-theorem merge_concatenation_prefix (hm : newMerger custom linkFn inputs = .ok m) (hr : m.readAll H = (out, fin))
+theorem merge_concatenation_prefix (hm : newMerger custom (some linkFn) inputs = .ok m) (hr : m.readAll H = (out, fin))
     (hl : lessOf custom inputs = none) : out <+: deliveredBy linkFn inputs := by
   have := readAll_cat H hm hl
   rw [hr] at this
@@ -99,7 +99,7 @@ theorem merge_concatenation_prefix (hm : newMerger custom linkFn inputs = .ok m)
 
 /-- precisely: concatenation stops at the first failing input — the output is everything of the inputs in
 front of it followed by what it delivers, and the error returned is its error -/
-theorem merge_concatenation_stops_at_first_error (hm : newMerger custom linkFn inputs = .ok m)
+theorem merge_concatenation_stops_at_first_error (hm : newMerger custom (some linkFn) inputs = .ok m)
     (hr : m.readAll H = (out, fin)) (hl : lessOf custom inputs = none) (e : Nat) (hf : fin = some (.err e)) :
     ∃ pre p post, srcsOf inputs = pre ++ p :: post ∧ (∀ q, q ∈ pre → q.2.term = .eof) ∧ p.2.term = .err e ∧
       out = delivered (linksOf linkFn inputs) (pre ++ [p]) := by
@@ -113,7 +113,7 @@ theorem merge_concatenation_stops_at_first_error (hm : newMerger custom linkFn i
 
 /-- if `less` is a strict weak order and every input (re-linked) is sorted by it, the output is sorted by
 `less` with ties between inputs resolved by input id — the order of the heap -/
-theorem merge_sorted_ties {less : Less} (hm : newMerger custom linkFn inputs = .ok m) (hr : m.readAll H = (out, fin))
+theorem merge_sorted_ties {less : Less} (hm : newMerger custom (some linkFn) inputs = .ok m) (hr : m.readAll H = (out, fin))
     (hl : lessOf custom inputs = some less) (sw : StrictWeak less)
     (hs : ∀ i s, (i, s) ∈ srcsOf inputs → SortedBy less (s.rest.map (relink (linksOf linkFn inputs) i))) :
     SortedBy (pairLess less) out := by
@@ -129,7 +129,7 @@ theorem merge_sorted_ties {less : Less} (hm : newMerger custom linkFn inputs = .
     rw [List.pairwise_map] at this ⊢
     exact this.imp fun h => by rw [pairLess_same_id]; exact h
 
-theorem merge_sorted {less : Less} (hm : newMerger custom linkFn inputs = .ok m) (hr : m.readAll H = (out, fin))
+theorem merge_sorted {less : Less} (hm : newMerger custom (some linkFn) inputs = .ok m) (hr : m.readAll H = (out, fin))
     (hl : lessOf custom inputs = some less) (sw : StrictWeak less)
     (hs : ∀ i s, (i, s) ∈ srcsOf inputs → SortedBy less (s.rest.map (relink (linksOf linkFn inputs) i))) :
     SortedBy less (out.map (·.2)) := by
@@ -141,7 +141,7 @@ theorem merge_sorted {less : Less} (hm : newMerger custom linkFn inputs = .ok m)
 /-- the relative order of the records of one input is preserved: the records of input `i` in the
 output are an initial part of what input `i` delivers, and all of it when merging by a sort order or
 when the merged stream ended with io.EOF -/
-theorem merge_stable_per_input (hm : newMerger custom linkFn inputs = .ok m) (hr : m.readAll H = (out, fin))
+theorem merge_stable_per_input (hm : newMerger custom (some linkFn) inputs = .ok m) (hr : m.readAll H = (out, fin))
     (i : Nat) (s : Src) (hi : (i, s) ∈ srcsOf inputs) :
     out.filter (fun p => p.1 == i) <+: tagged (linksOf linkFn inputs) i s.rest ∧
     ((lessOf custom inputs).isSome ∨ fin = some .eof →
@@ -180,7 +180,7 @@ theorem merge_stable_per_input (hm : newMerger custom linkFn inputs = .ok m) (hr
 /-! ### how the merged stream ends -/
 
 /-- the error that ends the merged stream, when it is not io.EOF, is the read error of an input -/
-theorem merge_error_is_an_inputs (hm : newMerger custom linkFn inputs = .ok m) (hr : m.readAll H = (out, fin))
+theorem merge_error_is_an_inputs (hm : newMerger custom (some linkFn) inputs = .ok m) (hr : m.readAll H = (out, fin))
     (e : Nat) (hf : fin = some (.err e)) : ∃ inp, inp ∈ inputs ∧ inp.src.term = .err e := by
   cases hl : lessOf custom inputs with
   | some less =>
@@ -203,7 +203,7 @@ theorem merge_error_is_an_inputs (hm : newMerger custom linkFn inputs = .ok m) (
     exact ⟨inp, hi, by rw [hs]; exact hpt⟩
 
 /-- io.EOF only after all inputs ended cleanly — and then every record of every input has been returned -/
-theorem merge_eof_only_after_all (hm : newMerger custom linkFn inputs = .ok m) (hr : m.readAll H = (out, fin))
+theorem merge_eof_only_after_all (hm : newMerger custom (some linkFn) inputs = .ok m) (hr : m.readAll H = (out, fin))
     (hf : fin = some .eof) :
     (∀ inp, inp ∈ inputs → inp.src.term = .eof) ∧ out.Perm (deliveredBy linkFn inputs) := by
   have hall : ∀ inp, inp ∈ inputs → inp.src.term = .eof := by
@@ -231,7 +231,7 @@ theorem merge_eof_only_after_all (hm : newMerger custom linkFn inputs = .ok m) (
 
 /-- an input's read error is reported, not dropped: if some input fails, the merged stream ends with the
 read error of a failing input -/
-theorem merge_reports_error (hm : newMerger custom linkFn inputs = .ok m) (hr : m.readAll H = (out, fin))
+theorem merge_reports_error (hm : newMerger custom (some linkFn) inputs = .ok m) (hr : m.readAll H = (out, fin))
     (he : ∃ inp, inp ∈ inputs ∧ inp.src.term ≠ .eof) :
     ∃ e, fin = some (.err e) ∧ ∃ inp, inp ∈ inputs ∧ inp.src.term = .err e := by
   obtain ⟨out', t, ht⟩ := merge_terminates H hm
@@ -245,7 +245,7 @@ theorem merge_reports_error (hm : newMerger custom linkFn inputs = .ok m) (hr : 
 
 /-- when merging by a sort order, a failing input does not cost the records that could be read: they
 are all returned before the error -/
-theorem merge_sorted_returns_all_readable (hm : newMerger custom linkFn inputs = .ok m)
+theorem merge_sorted_returns_all_readable (hm : newMerger custom (some linkFn) inputs = .ok m)
     (hr : m.readAll H = (out, fin)) (hl : (lessOf custom inputs).isSome) :
     out.Perm (deliveredBy linkFn inputs) := merge_perm H hm hr (Or.inl hl)
 
@@ -274,7 +274,7 @@ def OwnedAs (names merged : List Name) (src o : Option Nat) : Prop :=
   | some x => ∃ y, o = some y ∧ y < merged.length ∧ merged[y]? = names[x]?
 
 theorem merge_refs_owned (srcRefs : List (List Name)) (merged : List Name)
-    (hm : newMerger custom linkFn inputs = .ok m) (hr : m.readAll H = (out, fin))
+    (hm : newMerger custom (some linkFn) inputs = .ok m) (hr : m.readAll H = (out, fin))
     (hl : LinksOK srcRefs merged (linksOf linkFn inputs)) (hw : RefsInRange srcRefs inputs) :
     ∀ p, p ∈ out → ∃ inp names r, inputs[p.1]? = some inp ∧ srcRefs[p.1]? = some names ∧ r ∈ inp.src.rest ∧
       p.2.name = r.name ∧ p.2.pos = r.pos ∧ p.2.matePos = r.matePos ∧ p.2.uid = r.uid ∧
@@ -346,7 +346,7 @@ def KeySorted (l : List Rec) : Prop := l.Pairwise fun a b => ¬ keyLt (coordKey 
 /-- coordinate order: if every input, re-linked to the merged header, is sorted by (merged reference
 index, position) with unplaced records last, so is the output -/
 theorem merge_sorted_coordinate (i0 : Input) (tl : List Input) (hso : i0.so = .coordinate)
-    (hm : newMerger custom linkFn (i0 :: tl) = .ok m) (hr : m.readAll H = (out, fin))
+    (hm : newMerger custom (some linkFn) (i0 :: tl) = .ok m) (hr : m.readAll H = (out, fin))
     (hs : ∀ i s, (i, s) ∈ srcsOf (i0 :: tl) → KeySorted (s.rest.map (relink (linksOf linkFn (i0 :: tl)) i))) :
     KeySorted (out.map (·.2)) := by
   have := merge_sorted H hm hr (coordinate_uses_coordinate_order i0 tl hso) lessByCoordinate_strictWeak ?_
@@ -389,7 +389,7 @@ theorem relinked_sorted_of_monotone (l : LinkFn) (i : Nat) (rs : List Rec)
 /-- when merging by a strict weak order the output does not depend on the heap implementation: any two
 heaps satisfying the `Heap` laws give the same records in the same order and the same final error
 (the heap order is total on the heads of distinct inputs, so the minimal head is unique) -/
-theorem merge_heap_independent (H1 H2 : Heap) {less : Less} (hm : newMerger custom linkFn inputs = .ok m)
+theorem merge_heap_independent (H1 H2 : Heap) {less : Less} (hm : newMerger custom (some linkFn) inputs = .ok m)
     (hl : lessOf custom inputs = some less) (sw : StrictWeak less) : m.readAll H1 = m.readAll H2 := by
   obtain ⟨n1, hn1, hr1⟩ := readAll_sorted H1 hm hl
   obtain ⟨n2, hn2, hr2⟩ := readAll_sorted H2 hm hl
@@ -402,7 +402,7 @@ theorem merge_heap_independent (H1 H2 : Heap) {less : Less} (hm : newMerger cust
 /-- complete characterisation of the sorted modes: a list that is sorted by (less, input id), contains
 for every input exactly that input's records in that input's order, and nothing of any other id, IS the
 output — `merge_sorted_ties` and `merge_stable_per_input` leave no freedom -/
-theorem merge_is_the_stable_merge {less : Less} (hm : newMerger custom linkFn inputs = .ok m)
+theorem merge_is_the_stable_merge {less : Less} (hm : newMerger custom (some linkFn) inputs = .ok m)
     (hr : m.readAll H = (out, fin)) (hl : lessOf custom inputs = some less) (sw : StrictWeak less)
     (hs : ∀ i s, (i, s) ∈ srcsOf inputs → SortedBy less (s.rest.map (relink (linksOf linkFn inputs) i)))
     (spec : List (Nat × Rec)) (h1 : SortedBy (pairLess less) spec)
@@ -431,13 +431,24 @@ theorem read_after_final (m m' : Merger) (t : Term) (h : m.read H = (.fin t, m')
     m'.read H = (.fin t, m') := read_fin_again H m m' t h
 
 /-- NewMerger fails with io.EOF exactly when there is no input … -/
-theorem newMerger_fails_without_input :
-    newMerger custom linkFn inputs = .error .noSource ↔ inputs = [] := newMerger_noSource custom linkFn inputs
+theorem newMerger_fails_without_input (merged : Option LinkFn) :
+    newMerger custom merged inputs = .error .noSource ↔ inputs = [] := newMerger_noSource custom merged inputs
 
-/-- … and with "sort order mismatch" exactly when some input declares another sort order than the first -/
-theorem newMerger_fails_on_mismatch :
-    newMerger custom linkFn inputs = .error .sortOrderMismatch ↔
-      ∃ i0 tl, inputs = i0 :: tl ∧ ∃ inp, inp ∈ inputs ∧ inp.so ≠ i0.so := newMerger_mismatch custom linkFn inputs
+/-- … with "sort order mismatch" exactly when some input declares another sort order than the first … -/
+theorem newMerger_fails_on_mismatch (merged : Option LinkFn) :
+    newMerger custom merged inputs = .error .sortOrderMismatch ↔
+      ∃ i0 tl, inputs = i0 :: tl ∧ ∃ inp, inp ∈ inputs ∧ inp.so ≠ i0.so := newMerger_mismatch custom merged inputs
+
+/-- … and with the error of sam.MergeHeaders exactly when that failed (`merged = none`) for two or more
+inputs of one sort order; there is no other failure -/
+theorem newMerger_fails_on_header_merge (merged : Option LinkFn) :
+    newMerger custom merged inputs = .error .headerMerge ↔
+      merged = none ∧ 2 ≤ inputs.length ∧ ∃ i0 tl, inputs = i0 :: tl ∧ ∀ inp, inp ∈ inputs → inp.so = i0.so :=
+  newMerger_headerMerge custom merged inputs
+
+/-- for a single input the header merge is not consulted (sam.MergeHeaders returns that header and nil links) -/
+theorem newMerger_single_ignores_header (merged merged' : Option LinkFn) (i0 : Input) :
+    newMerger custom merged [i0] = newMerger custom merged' [i0] := newMerger_single custom merged merged' i0
 
 /-- for a strict weak order, sortedness is the same as "no record is below its predecessor" (which is
 what the oracle of the check evaluates on the implementation's output) -/
@@ -460,13 +471,13 @@ def exInputs : List Input :=
 
 def exLink : LinkFn := fun i x => if i = 0 then x else x + 1
 
-example : (match newMerger none exLink exInputs with
+example : (match newMerger none (some exLink) exInputs with
     | .ok m => (m.readAll scanHeap).1.map (fun p => (p.1, p.2.uid, p.2.ref, p.2.mate))
     | .error _ => []) =
     [(0, 0, some 0, some 1), (1, 0, some 1, some 2), (0, 1, some 1, none), (1, 1, some 2, some 1), (0, 2, none, none)] := by
   decide
 
-example : (match newMerger none exLink exInputs with
+example : (match newMerger none (some exLink) exInputs with
     | .ok m => (m.readAll scanHeap).2
     | .error _ => none) = some (.err 7) := by decide
 
